@@ -144,33 +144,43 @@ Proof.
 Qed.
 Print Assumptions C18_syntax_error_prefix_consumed.
 
-(* First half ("the text before it is the beginning of a valid document"), established per input
-   by a checked witness: when the viability search (SynErr/Viable.v) returns tokens w for the
-   tokens in front of the reported one, those tokens followed by w are a valid document (by C03:
-   derivable in the grammar), so the reported token is exactly the first one at which the text
-   stops being the beginning of a valid document.  The runner evaluates the search on the cases
-   where it has to tell a wrong location from a merely different one.  That the search succeeds
-   for every prefix the parser accepts is not proved. *)
-Theorem C18_syntax_error_first_nonviable_partial : forall src rp w,
-  parse_report src = Some rp -> r_lexical rp = false -> viable_witness (r_before rp) = Some w ->
-  (exists d, parse_tokens (r_before rp ++ w ++ [weof]) = Ok d) /\
-  exists t r, tokens_of src = r_before rp ++ t :: r /\ r_off rp = tstart t /\
-    parse_err src = Some (tstart t) /\
-    forall src' rest' mb', lex src' = Ok (r_before rp ++ t :: rest', mb') -> parse src' = Err.
-Proof.
-  intros src rp w H NL W. split; [exact (viable_witness_sound _ _ W)|].
-  destruct (parse_report_position _ _ H NL) as (t & r & E & X & NE & _).
-  exists t, r. split; [exact E|]. unfold tok_ext in X. injection X as X1 X2 X3. split; [exact X1|]. split; [|exact NE].
-  destruct (parse_report_spec _ _ H) as [P _]. unfold parse_err. rewrite P, X1. reflexivity.
-Qed.
-Print Assumptions C18_syntax_error_first_nonviable_partial.
+(* Both halves, whole grammar, all inputs -- the clause itself.
+   On token lists: when the recogniser of documents stops at token t having consumed the tokens u,
+   then (a) u is the beginning of a derivable document (Syntax/Grammar.v Derives; a completion is
+   constructed in the proof, production by production: Proofs/SynErrLang.v, SynErrViableAll.v,
+   SynErrViableSDL.v) and (b) no derivable document begins with u followed by t. *)
+From GQL Require Import Syntax.Grammar Proofs.SynErrFinal.
+Theorem C18_token_first_nonviable : forall u t rest, parse_tokensE (u ++ t :: rest) = ErrE (t :: rest) ->
+  (exists cont d, Derives (u ++ cont) d) /\ (forall q d, ~ Derives (u ++ t :: q) d).
+Proof. exact token_first_nonviable. Qed.
+Print Assumptions C18_token_first_nonviable.
+
+(* On sources: for every source the model rejects, the tokens in front of the reported position
+   are the beginning of a derivable document (also when the lexer reports: every token in front
+   of the malformed lexeme); and when the parser reports, at the start of token t, no source
+   whose token stream begins with those tokens followed by t lexes to a derivable document.
+   [parse_report] is [parse_err_ext] together with the tokens in front (C18_report_is_parse_err). *)
+Theorem C18_syntax_error_first_nonviable : forall src rp, parse_report src = Some rp ->
+  (exists cont d, Derives (r_before rp ++ cont) d) /\
+  (r_lexical rp = false ->
+   exists t r, tokens_of src = r_before rp ++ t :: r /\ r_off rp = tstart t /\ parse_err src = Some (tstart t) /\
+     forall src' rest' mb' d, lex src' = Ok (r_before rp ++ t :: rest', mb') -> ~ Derives (r_before rp ++ t :: rest') d).
+Proof. exact report_first_nonviable. Qed.
+Print Assumptions C18_syntax_error_first_nonviable.
+
+Theorem C18_report_is_parse_err : forall src rp, parse_report src = Some rp ->
+  parse_err_ext src = Some (r_off rp, r_lo rp, r_hi rp) /\
+  (if r_lexical rp
+   then r_before rp = tokens_of src /\ exists s, snd (lexE src) = LBad s (r_off rp)
+   else exists t r, tokens_of src = r_before rp ++ t :: r /\ (r_off rp, r_lo rp, r_hi rp) = tok_ext t).
+Proof. exact parse_report_spec. Qed.
+Print Assumptions C18_report_is_parse_err.
 
 (* Both halves, for all inputs, on the value and type sub-grammars (Syntax/Grammar.v DValue, DType):
    when the recogniser of Value[Const] / Type stops at token t having consumed u, then u is the
    beginning of a derivable value / type (a completion is constructed in the proof) and nothing
-   derivable begins with u followed by t.  For the other productions the first half is what
-   C18_syntax_error_first_nonviable_partial establishes per input. *)
-From GQL Require Import Syntax.Grammar Proofs.SynErrComplete.
+   derivable begins with u followed by t. *)
+From GQL Require Import Proofs.SynErrComplete.
 Theorem C18_value_viable_prefix_partial : forall fuel c u t rest,
   parse_valueE fuel c (u ++ t :: rest) = ErrE (t :: rest) ->
   (exists cont v, DValue c (u ++ cont) v) /\ (forall q v, ~ DValue c (u ++ t :: q) v).
@@ -188,7 +198,8 @@ Print Assumptions C18_type_viable_prefix_partial.
    spreads, inline fragments, variable definitions, nested to any depth) had consumed when it
    stopped at token t begins a derivable one -- the completion is constructed in the proof
    (Proofs/SynErrLang.v: languages of the recogniser's combinators; Proofs/SynErrViableAll.v).
-   The type-system definitions and the document level are not covered by this theorem. *)
+   (Subsumed at document level by C18_token_first_nonviable; kept as the statement about the
+   relations DOperation / DFragment / DSelSet themselves.) *)
 From GQL Require Import Proofs.SynErrLang Proofs.SynErrViableAll.
 Theorem C18_executable_viable_prefix_partial : forall f,
   (forall u t rest, parse_operationE f (u ++ t :: rest) = ErrE (t :: rest) -> exists cont o, DOperation (u ++ cont) o) /\
